@@ -31,9 +31,9 @@ type clientRun struct {
 
 const (
 	clID    = 0x11
-	clPkt   = 9   // length of the packet the scenario's Encode returns
-	clCnt   = 7   // number of bytes the scenario's Read reports
-	clResp  = 5   // length of the response data
+	clPkt   = 9 // length of the packet the scenario's Encode returns
+	clCnt   = 7 // number of bytes the scenario's Read reports
+	clResp  = 5 // length of the response data
 	clParam = 0x1200
 )
 
